@@ -418,6 +418,27 @@ Proof.
   - intros n Hn. destruct (HP n Hn) as [[]|Hd]. exact Hd.
 Qed.
 
+(* T7 (eagerness, C11): at EVERY point of every run -- in particular whenever the
+   encoder is blocked on the provider -- for every solvable whose dependencies
+   have been handled, the candidates future of every package they mention
+   exists (pending) or has completed: requests are never serialised behind one
+   another *)
+Theorem enc_eager c evs st work :
+  enc_run U P (estate0 c) [] [] evs = Some (st, work) ->
+  forall so, In so (e_sols st) ->
+  In (TDeps so) work \/
+  forall n, In n (mentioned so) -> In (TCands n) work \/ In n (c_cands (e_cache st)).
+Proof.
+  intros E so Hso. assert (W0 : WI (estate0 c) []) by (constructor; simpl; intros x []).
+  destruct (wi_enc_run evs _ _ _ _ _ W0 E) as [HS HP].
+  destruct (HS so Hso) as [Hw|[_ Hd]]; [left; exact Hw|]. right. intros n Hn.
+  assert (Hp : In n (e_pkgs st)).
+  { unfold EncoderCalls.mentioned, vs_mentioned in Hn. destruct (deps_of U P so) as [rs cs|] eqn:Ed.
+    - destruct Hd as (B1 & _). apply B1. unfold EncoderCalls.mentioned, vs_mentioned. rewrite Ed. exact Hn.
+    - simpl in Hn. destruct Hn. }
+  destruct (HP n Hp) as [Hw|[Hc _]]; [left; exact Hw | right; exact Hc].
+Qed.
+
 (* ---------- in terms of the closedness predicate of E2 ---------- *)
 
 Lemma mk_requires_lits so r : cl_lits (mk_requires U so r) = requires_lits U (so_var so) r.
